@@ -78,6 +78,10 @@ func genPatterns(r *rand.Rand, rich bool) []PatSpec {
 		// to placeholder siblings: a name ending on such a node belongs to
 		// the placeholder pattern
 		{nil, "model.far.away.leaf", []string{"", "mg"}, 1},
+		// the empty pattern: the resource named like the service, and the
+		// one named like a mount point
+		{nil, "", []string{"", "mg", "rootg"}, 1},
+		{[]string{"sub"}, "", []string{"", "mg"}, 2},
 	}
 	n := 2 + r.IntN(4)
 	perm := r.Perm(len(pool))
